@@ -3,9 +3,11 @@ import glob, json, os
 import vlib
 
 TARGETS = ["Base/Num.vo", "Base/Corr.vo", "C16/Model.vo", "C16/Spec.vo", "C16/ProofsMax.vo", "C16/ProofsEM.vo",
-           "C16/ProofsModel.vo", "C16/Corr.vo", "C16/ProofsCorr.vo", "C16/SpecTest.vo", "C16/Props.vo"]
+           "C16/ProofsModel.vo", "C16/Corr.vo", "C16/ProofsCorr.vo", "C16/ModelHmm.vo", "C16/ProofsBW.vo",
+           "C16/ProofsBW2.vo", "C16/ProofsBW3.vo", "C16/Corr2.vo", "C16/SpecTest.vo", "C16/Props.vo"]
 PROPS = ["C16/Props.v"]
 CORPUS = os.path.join(vlib.ROOT, "corpus/C16/corpus.jsonl")
+CORPUS2 = os.path.join(vlib.ROOT, "corpus/C16/corpus2.jsonl")
 LAG_WITNESS = os.path.join(vlib.ROOT, "corpus/C16/lag_witness.json")
 PROPOSED = os.path.join(vlib.ROOT, "corpus/C16/known_findings_proposed.json")
 PARTIAL = ("Theorems are over exact real arithmetic (Coq Reals) about the hand-written model coq/C16/Model.v with ONE worker "
@@ -34,45 +36,61 @@ def known_case(case):
 
 
 def corr(ctx, binary, n):
+    for old in glob.glob(os.path.join(ctx.dir, "r2_*.v")) + glob.glob(os.path.join(ctx.dir, "cert_r2_*.v")):
+        os.remove(old)
     rc, out = vlib.run_harness(ctx, binary, n, extra=CORPUS)
-    if rc != 0:
-        ctx.violation({"obligation": "C16 harness run", "log": out[-3000:]}, False,
+    n2 = 40 if ctx.tier == "quick" else 400
+    rc2, out2 = vlib.run_harness(ctx, binary, n2, extra="round2:" + CORPUS2)
+    if rc != 0 or rc2 != 0:
+        ctx.violation({"obligation": "C16 harness run", "log": (out if rc != 0 else out2)[-3000:]}, False,
                       "harness failed on the implementation (crash while running the estimators)")
         return [], []
     meta = json.load(open(os.path.join(ctx.dir, "cases.meta.json")))
     vlib.merge_meta(ctx, meta)
-    shards = sorted(glob.glob(os.path.join(ctx.dir, "cases_*.v")), key=lambda p: int(p.rsplit("_", 1)[1][:-2]))
+    meta2 = json.load(open(os.path.join(ctx.dir, "r2.meta.json")))
+    vlib.merge_meta(ctx, meta2)
+    key = lambda p: int(p.rsplit("_", 1)[1][:-2])
+    shards = sorted(glob.glob(os.path.join(ctx.dir, "cases_*.v")), key=key)
+    shards2 = sorted(glob.glob(os.path.join(ctx.dir, "r2_*.v")), key=key)
     certs = sorted(glob.glob(os.path.join(ctx.dir, "cert_*.v")))
-    res = vlib.eval_shards(shards + certs)
+    res = vlib.eval_shards(shards + shards2 + certs)
     ctx.oblige(len(res), sum(1 for r in res if r["ok"]))
     cases = vlib.load_jsonl(os.path.join(ctx.dir, "cases.jsonl"))
+    cases2 = vlib.load_jsonl(os.path.join(ctx.dir, "r2.jsonl"))
+    off2 = [0]
+    for z in meta2["shard_sizes"]:
+        off2.append(off2[-1] + z)
     bad, known = [], []
     for k, r in enumerate(res):
         if r["ok"]:
             continue
-        if r["mism"] is None or k >= len(shards):
+        if r["mism"] is None or k >= len(shards) + len(shards2):
             what = ("exp table entry not certified by Coq-Interval (Go's math.Exp or the harness disagrees with exp)"
-                    if k >= len(shards) else "correspondence shard did not evaluate")
+                    if k >= len(shards) + len(shards2) else "correspondence shard did not evaluate")
             ctx.violation({"obligation": "shard " + os.path.basename(r["path"]), "coqc_error": r["error"]}, False, what)
             continue
-        for i in r["mism"]:
-            c = cases[k * meta["per_shard"] + i]
+        if k >= len(shards):
+            ms = [cases2[off2[k - len(shards)] + i] for i in r["mism"]]
+        else:
+            ms = [cases[k * meta["per_shard"] + i] for i in r["mism"]]
+        for c in ms:
             f = known_case(c)
             if f:
                 known.append((f, c))
             else:
                 bad.append(c)
-        if all(known_case(cases[k * meta["per_shard"] + i]) for i in r["mism"]):
+        if all(known_case(c) for c in ms):
             ctx.discharged += 1   # every mismatch of the shard is a recorded finding
-    ctx.log("correspondence: %d cases in %d shards (+%d exp-table certificates), %d mismatching, %d known" % (
-        len(cases), len(shards), len(certs), len(bad), len(known)))
+    ctx.log("correspondence: %d + %d (Baum-Welch) cases in %d shards (+%d exp-table certificates), %d mismatching, %d known" % (
+        len(cases), len(cases2), len(shards) + len(shards2), len(certs), len(bad), len(known)))
     return bad, known
 
 
 def hunt(ctx, binary, bad):
     rp = os.path.join(ctx.dir, "hunt_in.json")
     lag = json.load(open(LAG_WITNESS)) if os.path.exists(LAG_WITNESS) else None
-    json.dump({"cases": bad[:50], "lag_witness": lag}, open(rp, "w"))
+    json.dump({"cases": [c for c in bad if c.get("kind") != "hmm"][:50],
+               "cases2": [c for c in bad if c.get("kind") == "hmm"][:20], "lag_witness": lag}, open(rp, "w"))
     n = 1500 if ctx.tier == "quick" else 20000
     rc, out = vlib.sh([binary, "--extra", "hunt", "--replay", rp, "--n", str(n), "--seed", str(ctx.seed),
                        "--out", ctx.dir], timeout=900, env=vlib.go_env())
